@@ -37,6 +37,12 @@ CHECKS = {
  "C13": dict(level="exploration", technique="runtime monitoring: recording Callback on the real executors, judged against the finalized plan delivered with the compute-start event and len(pipeline.mappable)",
    text="For every operation of every generated plan: advertised num_tasks == length of its task list == sum of task-end notifications; exactly one start/end per operation and per computation, in order; on single-threaded, threads (batching, compute_arrays_in_parallel) and processes.",
    note="Callbacks are observed in the client process; executors other than the three local ones are not installed.", ref="3/C13"),
+ "C14": dict(level="exploration", technique="runtime contracts (icontract post-conditions) on the real rechunk planners, rebound on every module that imported them, with an evaluation counter; plus end-to-end rechunks under small allowed_mem with the store-level single-writer/whole-chunk monitors and a NumPy comparison",
+   text="Random geometries (1-3 dims, sizes rich in primes/powers, transposing patterns under tight budgets, item sizes 1-16, min_mem/max_mem from tight to invalid) and the bounded-exhaustive sweep of all small 1-D/2-D geometries are fed to both planners; every returned plan must chain, fit max_mem in every read/intermediate/write chunk, stay inside [1, dim], have intermediate = min(read, write) and line up with the chunks it writes; any exception other than ValueError/NotImplementedError is a violation. Termination = <= MAX_STAGES stages + watchdog.",
+   note="'The planner always terminates' is restated as a step bound plus a wall-clock watchdog whose firing is inconclusive. The sweep is exhaustive only for the stated tiny geometries.", ref="3/C14"),
+ "C15": dict(level="exploration", technique="runtime monitoring over symbolic storage: the real blockwise/general_blockwise/apply_blockwise/fuse_multiple code runs on fake arrays whose blocks are terms; block functions record what they received (array, coordinates, position, block/list/iterator); oracles: independent index-algebra reference and the unfused run",
+   text="Index expressions (<= 4 symbols, <= 3 arguments, block counts 1-3 with per-argument broadcasting, new axes, contractions) are executed block by block through the real primitive and compared with a reference written from the design notes; fusion DAGs to depth 3 over seven key-function kinds are fused the way the optimiser does (can_fuse_multiple_primitive_ops + fuse_multiple) and compared with the unfused run term by term, including container kinds.",
+   note="Symbolic blocks exercise addressing and structure, not numerics. Thorough enumerates all expressions with <= 3 symbols and <= 2 arguments.", ref="3/C15"),
  "C16": dict(level="exploration", technique="runtime monitoring: store tracer (no set/delete/data get), work-directory snapshot and an execution-attempt counter on FinalizedPlan.execute while every public callable is invoked and results are planned, visualised and inspected; documented triggers asserted to execute",
    text="The public surface found by introspection is exercised through the recipe generator and a direct-call table (incl. plans of rechunks with rectilinear intermediates under tight memory); any store write, data read, new file or execution attempt during build/plan/visualize/inspect is a violation; a public callable never exercised makes the run inconclusive.",
    note="take()/indexing with a cubed array, compute, eager store/to_zarr and scalar/array conversions are the documented triggers and are checked to be triggers.", ref="3/C16"),
